@@ -52,7 +52,17 @@ DeepTrees ==
     IN UNION {{Dec(p0, <<Dec(p1, <<Lf(1), Lf(2)>>), Dec(p2, <<Lf(3), Dec(p3, <<Lf(4), Lf(5)>>)>>)>>),
                Dec(p0, <<Dec(p2, <<Dec(p3, <<Lf(4), Lf(5)>>), Lf(3)>>), Dec(p1, <<Lf(1), Lf(2)>>)>>)}
               : p0 \in PredSet(PG), p1 \in PredSet(PG), p2 \in PredSet(PG), p3 \in PredSet(PG)}
-GSet == IF MODE = "arithdeep" THEN DeepTrees ELSE IF MODE = "prunedeep" THEN PartialDeep ELSE GSetAll
+\* K = 4: right operands with a decision below the root whose children sit only under the high labels 2 and 3 (or only 3)
+HighSlotTrees ==
+    LET tm == CHOOSE a \in TermSet(TG) : TRUE
+        Lf(k) == Leaf([tm EXCEPT !.b = [i \in 1..Len(tm.b) |-> k]])
+        two == {p \in PredSet(PG) : Len(p.m) = 2}
+    IN UNION {{Dec(p0, <<Dec(p1, <<Missing, Missing, Lf(1), Lf(2)>>), Lf(3), Missing, Missing>>),
+               Dec(p0, <<Lf(3), Dec(p1, <<Missing, Missing, Missing, Lf(1)>>), Lf(2), Lf(4)>>),
+               Dec(p0, <<Lf(3), Dec(p1, <<Missing, Missing, Lf(1), Missing>>), Missing, Missing>>)}
+              : p0 \in PredSet(PG), p1 \in two}
+GSet == IF MODE = "arithdeep" THEN DeepTrees ELSE IF MODE = "prunedeep" THEN PartialDeep
+        ELSE IF MODE \in {"compose", "arith"} /\ K = 4 THEN GSetAll \cup HighSlotTrees ELSE GSetAll
 Ops == CASE MODE = "compose" -> {"compose"}
          [] MODE = "arith" -> {"add", "sub", "mul", "div"}
          [] MODE = "arithdeep" -> {"add", "sub"}
